@@ -4,6 +4,7 @@ package main
 
 import (
 	"bytes"
+	"os"
 	"encoding/csv"
 	"encoding/hex"
 	"io"
@@ -163,7 +164,7 @@ func csvCellFor(r *Rng, inDomain bool) any {
 		case 3:
 			return float64(r.Range(-3, 3))
 		default:
-			return Pick(r, []string{"a", "b c", "x,y", "say \"hi\"", "line\nbreak", "cr\rin", "é", "漢字", "", "\\.", "a\"", "\"", ",", "tab\tin", "<nil>", "true", "1a", "--1", "e5", "a,\"b\"\n,c"})
+			return Pick(r, []string{"a", "b c", "x,y", "say \"hi\"", "line\nbreak", "cr\rin", "é", "漢字", "", "\\.", "a\"", "\"", ",", "tab\tin", "<nil>", "true", "1a", "--1", "e5", "a,\"b\"\n,c", "1,2,3", "12,5", "7,", "1,000", ",5", "over\rstrike", "5%"})
 		}
 	}
 	return Pick(r, []any{" lead", "trail ", "12", "1e3", "crlf\r\nx", " ", "nan", nil, true, int64(1) << 60})
@@ -190,11 +191,35 @@ func genCsvRoundTrip(r *Rng) *Enc {
 	e.Tok("RT")
 	e.Frame(df)
 	var buf bytes.Buffer
-	st, _ := guard(func() error { return df.ToCSVWriter(&buf) })
+	viaFile := csvDir != "" && r.Chance(20)
+	st, _ := guard(func() error {
+		if viaFile {
+			// the by-path API, over a file that already exists and is longer than what will be written
+			path := csvDir + "/rt.csv"
+			if err := os.WriteFile(path, bytes.Repeat([]byte("old,old,old\n1,2,3\n"), 40), 0o644); err != nil {
+				return err
+			}
+			if err := df.ToCSV(path); err != nil {
+				return err
+			}
+			b, err := os.ReadFile(path)
+			buf.Write(b)
+			return err
+		}
+		return df.ToCSVWriter(&buf)
+	})
 	e.Tok("W", st, "x"+hex.EncodeToString(buf.Bytes()))
 	noteFields(e, buf.Bytes())
 	var back *dataframe.DataFrame
-	st2, _ := guard(func() error { var err error; back, err = dataframe.FromCSVReader(bytes.NewReader(buf.Bytes())); return err })
+	st2, _ := guard(func() error {
+		var err error
+		if viaFile {
+			back, err = dataframe.NewDataFrame().FromCSV(csvDir + "/rt.csv")
+			return err
+		}
+		back, err = dataframe.FromCSVReader(bytes.NewReader(buf.Bytes()))
+		return err
+	})
 	e.Tok("R", st2)
 	if st2 == "ok" {
 		e.Frame(back)
@@ -205,3 +230,6 @@ func genCsvRoundTrip(r *Rng) *Enc {
 }
 
 var _ = io.EOF
+
+// csvDir is a scratch directory for the by-path API (set by main for the csv engine)
+var csvDir string
